@@ -28,6 +28,7 @@ func main() {
 	prop := flag.String("prop", "", "property id the run is for (selects generator emphasis)")
 	replay := flag.String("replay", "", "replay one .case file")
 	goldenDir := flag.String("golden", "", "golden corpus directory (stream golden)")
+	dumpCases := flag.String("dumpcases", "", "directory to write every generated case to (<name>.case)")
 	flag.Parse()
 
 	pogreb.SetLogger(log.New(io.Discard, "", 0))
@@ -45,7 +46,7 @@ func main() {
 	}
 	defer w.Flush()
 
-	h := &harness{w: w, tier: *tier, prop: *prop, stats: map[string]int{}}
+	h := &harness{w: w, tier: *tier, prop: *prop, stats: map[string]int{}, dumpDir: *dumpCases}
 	switch *stream {
 	case "ops", "crash", "ploss":
 		h.runOpsStream(*stream, *seed, *cases, *nops, *corpus, *replay)
